@@ -96,8 +96,8 @@ Init ==
     /\ \E off \in OffsetsOf(mode) : total = Max(1, SumSupply(es) + off)
     /\ hist = <<>>
 
-Result == [accept |-> AsCoded(conv, total, es) = "ok", err |-> AsCoded(conv, total, es),
-           required |-> Required(total, es), why |-> Why(total, es)]
+Result == LET c == AsCoded(conv, total, es) IN
+          [accept |-> c = "ok", err |-> c, required |-> Required(total, es), why |-> Why(total, es)]
 
 \* the single action: NewAccountsParser(file(es), total, converter)
 Parse ==
@@ -109,7 +109,7 @@ Next == Parse
 Spec == Init /\ [][Next]_vars
 
 \* C47: a genesis file is accepted only if the four clauses hold
-Inv_C47_AcceptedOnlyIfRequired == Result.accept => Result.required
+Inv_C47_AcceptedOnlyIfRequired == (AsCoded(conv, total, es) = "ok") => Required(total, es)
 \* the converse is not demanded by C47; it documents what else the parser insists on
-RejectedThoughRequired == Result.required /\ ~Result.accept
+RejectedThoughRequired == Required(total, es) /\ AsCoded(conv, total, es) # "ok"
 =============================================================================
